@@ -261,6 +261,16 @@ pub fn corpus(rng: &mut Rng) -> Vec<(String, Sparse, Cfg)> {
     let mut past = bx(b"mdat", &[3; 20], Enc::S32);
     past[3] += 9;
     v.push(("past-end".into(), Sparse::from_bytes(&[ftyp.clone(), bx(b"moov", &moovp, Enc::S32), past].concat()), Cfg::default()));
+    // header fields that straddle a refill of the sanitizer's 32-byte buffer: a `free` box of 8 + k bytes moves the next
+    // header (64-bit form: size, name and extended size are three separate reads) through every alignment, so that for
+    // some k each field is split between buffered bytes and a suspended read of the rest
+    for k in 0..8usize {
+        let free = bx(b"free", &vec![0u8; k], Enc::S32);
+        v.push((format!("straddle-a{k}"), Sparse::from_bytes(&[ftyp.clone(), free.clone(), bx(b"mdat", &[7; 5], Enc::S64), bx(b"moov", &moovp, Enc::S32)].concat()), Cfg::default()));
+        if k % 2 == 1 {
+            v.push((format!("straddle-b{k}"), Sparse::from_bytes(&[ftyp.clone(), bx(b"moov", &moovp, Enc::S64), free, bx(b"mdat", &[7; 9], Enc::S32), bx(b"skip", &[0; 3], Enc::S64)].concat()), Cfg::default()));
+        }
+    }
     v
 }
 
